@@ -125,13 +125,9 @@ theorem Indep.of_eq {s s' : Song} (hc : s'.cur = s.cur) (ht : s'.tracks = s.trac
   ⟨hc, by rw [ht], fun _ _ => by rw [ht]⟩
 
 /-- the token, and every token inside its children, is neither `Track` nor `TrackSync` -/
-def noTrack : Tok → Bool
-  | .mk ty _ _ _ _ ch => ty != .track && ty != .trackSync && (match ch with
-      | none => true
-      | some l => noTrackL l)
-where noTrackL : List Tok → Bool
-  | [] => true
-  | t :: ts => noTrack t && noTrackL ts
+inductive NoTrack : Tok → Prop
+  | mk (ty : TT) (vi ln : Int) (vs : Option (List Nat)) (data : List SV) (ch : Option (List Tok)) :
+      ty ≠ .track → ty ≠ .trackSync → (∀ l, ch = some l → ∀ a ∈ l, NoTrack a) → NoTrack (.mk ty vi ln vs data ch)
 
 end Sakura.Ex2
 
@@ -145,38 +141,226 @@ theorem drawIf_indep (w v : Int) (s : Song) : Indep s (drawIf w v s).2 := by
 
 theorem emitNote_indep (s : Song) (ev : Event) (sl : Int) : Indep s (emitNote s ev sl) := by
   unfold emitNote
+  simp only []
+  by_cases h1 : s.harmonyFlag = true
+  · simp only [h1, if_true]
+    exact (Indep.setT s _).trans (Indep.of_eq rfl rfl)
+  · simp only [h1, if_false]
+    by_cases h2 : sl ≥ 1
+    · rw [if_pos h2]; exact Indep.setT _ _
+    · rw [if_neg h2]
+      by_cases h3 : s.t.tieNotes ≠ []
+      · rw [if_pos h3]; exact Indep.setT _ _
+      · rw [if_neg h3]; exact Indep.setT _ _
+
+theorem noteDraws_indep (s : Song) (k v t q : Int) : Indep s (noteDraws s k v t q).2 := by
+  unfold noteDraws
+  simp only []
+  refine Indep.trans (Indep.trans (Indep.trans ?_ (drawIf_indep _ _ _)) (drawIf_indep _ _ _)) (drawIf_indep _ _ _)
   split
-  · exact (Indep.setT s _).trans (Indep.of_eq rfl rfl)
-  · split
-    · exact Indep.setT _ _
-    · split <;> exact Indep.setT _ _
+  · exact Indep.of_eq rfl rfl
+  · exact Indep.refl _
+
+theorem advance_indep (s : Song) (tp : Int) : Indep s (advance s tp) := by
+  unfold advance
+  simp only []
+  split
+  · exact (Indep.setT _ _).trans ((Indep.setT _ _).trans (Indep.of_eq rfl rfl))
+  · exact Indep.setT _ _
 
 theorem execNote_indep (s : Song) (tk : Tok) : Indep s (execNote s tk) := by
   unfold execNote
+  simp only []
   split
   · exact Indep.of_eq rfl rfl
-  · refine Indep.trans ?_ (emitNote_indep _ _ _)
-    have h1 : Indep s (drawIf s.t.qRand (if dataI tk.data 3 = 0 then s.t.qlen else dataI tk.data 3)
-        (drawIf s.t.tRand (if dataI tk.data 5 = intMin then s.t.timing else dataI tk.data 5)
-          (drawIf s.t.vRand (if dataI tk.data 4 < 0 then s.t.velocity else dataI tk.data 4)
-            (if s.t.oRand > 0 then
-              ((if s.useKeyShift = true then
-                  (if dataI tk.data 6 < 0 then s.t.octave else dataI tk.data 6) * 12 + Int.tmod tk.vi 12 + dataI tk.data 0 +
-                    (if dataI tk.data 1 = 0 then s.keyFlag.getD (Int.toNat (Int.tmod tk.vi 12) % 12) 0 else 0) + s.keyShift + s.t.trackKey
-                else (if dataI tk.data 6 < 0 then s.t.octave else dataI tk.data 6) * 12 + Int.tmod tk.vi 12 + dataI tk.data 0) +
-                  (Reserve.calcRand s.seed 0 s.t.oRand).1 * 12,
-                { s with seed := (Reserve.calcRand s.seed 0 s.t.oRand).2 })
-            else
-              (if s.useKeyShift = true then
-                  (if dataI tk.data 6 < 0 then s.t.octave else dataI tk.data 6) * 12 + Int.tmod tk.vi 12 + dataI tk.data 0 +
-                    (if dataI tk.data 1 = 0 then s.keyFlag.getD (Int.toNat (Int.tmod tk.vi 12) % 12) 0 else 0) + s.keyShift + s.t.trackKey
-                else (if dataI tk.data 6 < 0 then s.t.octave else dataI tk.data 6) * 12 + Int.tmod tk.vi 12 + dataI tk.data 0, s)).2).2).2).2 := by
-      refine Indep.trans (Indep.trans (Indep.trans ?_ (drawIf_indep _ _ _)) (drawIf_indep _ _ _)) (drawIf_indep _ _ _)
-      split
-      · exact Indep.of_eq rfl rfl
-      · exact Indep.refl _
-    split
-    · exact (h1.trans (Indep.setT _ _)).trans ((Indep.setT _ _).trans (Indep.of_eq rfl rfl))
-    · exact h1.trans (Indep.setT _ _)
+  · exact ((noteDraws_indep _ _ _ _ _).trans (advance_indep _ _)).trans (emitNote_indep _ _ _)
 
+theorem execNoteN_indep (s : Song) (tk : Tok) : Indep s (execNoteN s tk) := by
+  unfold execNoteN
+  simp only []
+  split
+  · exact Indep.of_eq rfl rfl
+  · exact ((drawIf_indep _ _ _).trans ((drawIf_indep _ _ _).trans (drawIf_indep _ _ _))).trans (Indep.setT _ _)
+
+theorem execHarmonyEnd_indep (s : Song) (tk : Tok) : Indep s (execHarmonyEnd s tk) := by
+  unfold execHarmonyEnd
+  simp only []
+  split
+  · exact Indep.refl _
+  · exact (Indep.setT _ _).trans (Indep.of_eq rfl rfl)
+
+theorem tempoChange_indep (s : Song) (x : Int) : Indep s (tempoChange s x) := by
+  unfold tempoChange
+  simp only []
+  exact (Indep.setT _ _).trans (Indep.of_eq rfl rfl)
+
+theorem toLoopTok_other (t a : Tok) (h : toLoopTok t = .other a) : a = t := by
+  unfold toLoopTok at h
+  split at h
+  · split at h <;> simp at h; exact h.symm
+  · simp at h
+  · simp at h
+  · simp at h; exact h.symm
+
+theorem noTrack_ty (tk : Tok) (h : NoTrack tk) : tk.ty ≠ .track ∧ tk.ty ≠ .trackSync := by
+  cases h with
+  | mk ty vi ln vs data ch h1 h2 h3 => exact ⟨h1, h2⟩
+
+theorem noTrack_children (tk : Tok) (h : NoTrack tk) (ch : List Tok) (hc : tk.children = some ch) : ∀ a ∈ ch, NoTrack a := by
+  cases h with
+  | mk ty vi ln vs data c h1 h2 h3 => exact h3 ch hc
+
+/-- a nested `exec` over children without `TR`/`TrackSync` touches only the current track -/
+theorem block_indep (F d : Nat) (ih : ∀ (tk : Tok) (s : Song), NoTrack tk → Indep s (leaf F d tk s))
+    (ch : List Tok) (hch : ∀ a ∈ ch, NoTrack a) (s0 s' : Song)
+    (h : Loop.runFuel (leaf F d) (ch.map toLoopTok) F (0, [], s0) = some s') : Indep s0 s' := by
+  refine runFuel_rel (leaf F d) Indep Indep.refl (fun _ _ _ => Indep.trans) _ ?_ F (0, [], s0) s' h
+  intro a ha st
+  obtain ⟨t, ht, he⟩ := List.mem_map.mp ha
+  have := toLoopTok_other t a he
+  subst this
+  exact ih _ st (hch _ ht)
+
+/-- **C12 on the runner model**: a token that is neither `TR` nor `TrackSync` (nor contains one) changes nothing outside the current
+    track — whatever the token, its arguments and the nesting of its children, for any fuel -/
+theorem leaf_indep (F : Nat) : ∀ (d : Nat) (tk : Tok) (s : Song), NoTrack tk → Indep s (leaf F d tk s) := by
+  intro d
+  induction d with
+  | zero =>
+    intro tk s hn
+    have hty := noTrack_ty tk hn
+    unfold leaf
+    split
+    · exact Indep.refl _
+    · split
+      all_goals first
+        | exact Indep.refl _
+        | exact Indep.setT _ _
+        | exact Indep.of_eq rfl rfl
+        | exact execNote_indep _ _
+        | exact execNoteN_indep _ _
+        | exact execHarmonyEnd_indep _ _
+        | (rename_i heq; exact absurd heq hty.1)
+        | (rename_i heq; exact absurd heq hty.2)
+        | skip
+      all_goals (simp only [])
+      all_goals repeat' (first
+        | exact Indep.refl _
+        | exact Indep.setT _ _
+        | exact Indep.of_eq rfl rfl
+        | exact (Indep.setT _ _).trans (Indep.of_eq rfl rfl)
+        | exact tempoChange_indep _ _
+        | split)
+  | succ d ih =>
+    intro tk s hn
+    have hty := noTrack_ty tk hn
+    by_cases hb : s.bad = true
+    · unfold leaf; simp only [hb, if_true]; exact Indep.refl _
+    by_cases hsub : tk.ty = .sub
+    · unfold leaf
+      simp only [hb, Bool.false_eq_true, if_false, hsub]
+      cases hc : tk.children with
+      | none => exact Indep.of_eq rfl rfl
+      | some ch =>
+        simp only []
+        cases hr : Loop.runFuel (leaf F d) (ch.map toLoopTok) F (0, [], s) with
+        | none => exact Indep.of_eq rfl rfl
+        | some s' =>
+          have hi := block_indep F d ih ch (noTrack_children tk hn ch hc) s s' hr
+          simp only []
+          split
+          · exact hi
+          · exact hi.trans (Indep.setT _ _)
+    by_cases hdiv : tk.ty = .div
+    · unfold leaf
+      simp only [hb, Bool.false_eq_true, if_false, hdiv]
+      cases hc : tk.children with
+      | none => exact Indep.of_eq rfl rfl
+      | some ch =>
+        simp only []
+        generalize hs0 : s.setT _ = s0
+        have h0 : Indep s s0 := hs0 ▸ Indep.setT _ _
+        cases hr : Loop.runFuel (leaf F d) (ch.map toLoopTok) F (0, [], s0) with
+        | none => exact Indep.of_eq rfl rfl
+        | some s' =>
+          have hi := h0.trans (block_indep F d ih ch (noTrack_children tk hn ch hc) s0 s' hr)
+          simp only []
+          split
+          · exact hi
+          · exact hi.trans (Indep.setT _ _)
+    unfold leaf
+    split
+    · exact Indep.refl _
+    · split
+      all_goals first
+        | exact Indep.refl _
+        | exact Indep.setT _ _
+        | exact Indep.of_eq rfl rfl
+        | exact execNote_indep _ _
+        | exact execNoteN_indep _ _
+        | exact execHarmonyEnd_indep _ _
+        | (rename_i heq; exact absurd heq hty.1)
+        | (rename_i heq; exact absurd heq hty.2)
+        | (rename_i heq; exact absurd heq hsub)
+        | (rename_i heq; exact absurd heq hdiv)
+        | skip
+      all_goals (simp only [])
+      all_goals repeat' (first
+        | exact Indep.refl _
+        | exact Indep.setT _ _
+        | exact Indep.of_eq rfl rfl
+        | exact (Indep.setT _ _).trans (Indep.of_eq rfl rfl)
+        | exact tempoChange_indep _ _
+        | split)
+
+/-- **tracks are independent (C12, runner model)**: running any token list that contains no `TR` / `TrackSync` (at any depth) leaves the
+    selected track selected and every other track — pointer, settings and events — exactly as it was; any tokens, any nesting, any fuel -/
+theorem exec_indep (F D : Nat) (toks : List Tok) (h : ∀ a ∈ toks, NoTrack a) (s s' : Song)
+    (he : exec F D toks s = some s') : Indep s s' :=
+  block_indep F D (leaf_indep F D) toks h s s' he
+
+/-! ## C06 on the runner model: `Sub` restores the pointer, a tuplet advances by exactly its length and restores the default length -/
+
+theorem setT_t' (s : Song) (t : Trk) (h : s.cur < s.tracks.length) : (s.setT t).t = t := by
+  simp [Song.t, Song.setT, h]
+
+/-- `Sub{X}`: whatever `X` is (no `TR`/`TrackSync` inside), if the block runs to its end the time pointer is where it was -/
+theorem sub_restores_pointer (F d : Nat) (data : List SV) (vi ln : Int) (vs : Option (List Nat)) (ch : List Tok)
+    (hch : ∀ a ∈ ch, NoTrack a) (s : Song) (hc : s.cur < s.tracks.length) (hb : s.bad = false)
+    (hok : (leaf F (d + 1) (.mk .sub vi ln vs data (some ch)) s).bad = false) :
+    (leaf F (d + 1) (.mk .sub vi ln vs data (some ch)) s).t.timepos = s.t.timepos := by
+  unfold leaf at hok ⊢
+  simp only [hb, Bool.false_eq_true, if_false, Tok.ty, Tok.children] at hok ⊢
+  cases hr : Loop.runFuel (leaf F d) (ch.map toLoopTok) F (0, [], s) with
+  | none => simp [hr] at hok
+  | some s' =>
+    have hi := block_indep F d (leaf_indep F d) ch hch s s' hr
+    simp only [hr] at hok ⊢
+    by_cases hb' : s'.bad = true
+    · simp [hb'] at hok
+    · simp only [hb', Bool.false_eq_true, if_false]
+      rw [setT_t' _ _ (by rw [hi.1, hi.2.1]; exact hc)]
+
+/-- `{X}L`: if the block runs to its end the pointer has advanced by exactly the tuplet's length and the default length is restored -/
+theorem div_advances_exactly (F d : Nat) (lenS : List Nat) (vi ln : Int) (vs : Option (List Nat)) (ch : List Tok)
+    (hch : ∀ a ∈ ch, NoTrack a) (s : Song) (hc : s.cur < s.tracks.length) (hb : s.bad = false)
+    (hok : (leaf F (d + 1) (.mk .div vi ln vs [.str lenS] (some ch)) s).bad = false) :
+    (leaf F (d + 1) (.mk .div vi ln vs [.str lenS] (some ch)) s).t.timepos = s.t.timepos + Len.calcLength s.tb s.t.length lenS ∧
+    (leaf F (d + 1) (.mk .div vi ln vs [.str lenS] (some ch)) s).t.length = s.t.length := by
+  unfold leaf at hok ⊢
+  simp only [hb, Bool.false_eq_true, if_false, Tok.ty, Tok.children, Tok.data, Tok.vi, dataS, List.getD_cons_zero, SV.toS] at hok ⊢
+  generalize hs0 : s.setT _ = s0 at hok ⊢
+  have h0 : Indep s s0 := hs0 ▸ Indep.setT _ _
+  cases hr : Loop.runFuel (leaf F d) (ch.map toLoopTok) F (0, [], s0) with
+  | none => simp [hr] at hok
+  | some s' =>
+    have hi := h0.trans (block_indep F d (leaf_indep F d) ch hch s0 s' hr)
+    simp only [hr] at hok ⊢
+    by_cases hb' : s'.bad = true
+    · simp [hb'] at hok
+    · simp only [hb', Bool.false_eq_true, if_false]
+      rw [setT_t' _ _ (by rw [hi.1, hi.2.1]; exact hc)]
+      exact ⟨rfl, rfl⟩
+
+#print axioms exec_indep
 end Sakura.Ex2
